@@ -20,6 +20,7 @@ import (
 	redisemu "github.com/jimsnab/go-redisemu"
 	vm "github.com/jimsnab/go-redisemu/verifmodel"
 	"github.com/jimsnab/go-redisemu/verifrt"
+	vos "github.com/jimsnab/go-redisemu/verifrt/vos"
 )
 
 const epochMs = int64(1893456000000) // 2030-01-01T00:00:00Z
@@ -97,6 +98,8 @@ type SeqSpec struct {
 	LazyFrom int
 	// ObserveAll: dump the state through every connected session, not only through the observer
 	ObserveAll bool
+	// Persist: the instance has a persist path (in-memory file system); the pseudo command $SAVE runs the saver
+	Persist bool
 }
 
 // sweepFor: the sweep operations tried from the state reached by path
@@ -284,6 +287,13 @@ func (x *seqExec) do(op Op) (vm.Reply, vm.Reply, error) {
 	x.ticks++
 	before := x.model.Now
 	verifrt.SetNow(time.UnixMilli(x.model.Now).UTC().Add(time.Duration(x.ticks%900) * time.Microsecond))
+	if len(op.Args) == 1 && op.Args[0] == "$SAVE" {
+		// what the saver does once a second (specs with a persist path): no command, nothing a connection sees
+		if e := x.impl.vi.Save(); e != nil {
+			return vm.Reply{K: vm.KStatus, S: "OK"}, vm.Err("SAVE " + e.Error()), nil
+		}
+		return vm.Reply{K: vm.KStatus, S: "OK"}, vm.Reply{K: vm.KStatus, S: "OK"}, nil
+	}
 	want := x.model.Exec(op.Sess, op.Args)
 	if x.impl.clients[op.Sess] == nil {
 		x.impl.clients[op.Sess] = x.impl.vi.NewClient() // connects now
@@ -320,7 +330,12 @@ func runTransition(spec *SeqSpec, init int, path []int, op Op, ops []Op) (out st
 	var preModel *vm.Model
 	sched := verifrt.NewSched(nil)
 	sched.Run(func() {
-		vi := redisemu.VNew("")
+		base := ""
+		if spec.Persist {
+			vos.ResetFS()
+			base = "data/seq"
+		}
+		vi := redisemu.VNew(base)
 		x.impl = &implRun{vi: vi}
 		for i := 0; i <= nSess; i++ {
 			if spec.LazyFrom > 0 && i >= spec.LazyFrom && i < nSess {
@@ -584,7 +599,12 @@ func runLong(spec *SeqSpec, idx int, beat func()) (res []seqOpResult) {
 	sched := verifrt.NewSched(nil)
 	sched.Horizon = 50000000
 	sched.Run(func() {
-		vi := redisemu.VNew("")
+		base := ""
+		if spec.Persist {
+			vos.ResetFS()
+			base = "data/seq"
+		}
+		vi := redisemu.VNew(base)
 		x.impl = &implRun{vi: vi}
 		x.impl.clients = append(x.impl.clients, vi.NewClient(), vi.NewClient())
 		for i, op := range hist {
